@@ -195,6 +195,32 @@ pub fn finish(meta: &CheckMeta, tier: &str, seed: u64, out: Outcome, wall_s: f64
     for (what, c) in &known_hits {
         println!("KNOWN-FINDING: property={} {} ({} occurrences in this run)", meta.property, what, c);
     }
+    // print one representative of every (system, op class, symptom) group first
+    {
+        let mut seen = std::collections::BTreeSet::new();
+        let mut first = vec![];
+        let mut rest = vec![];
+        for x in unlisted.drain(..) {
+            let g = format!("{}|{}|{}", x.0.system.split(':').next().unwrap_or(""), x.0.op_class, x.0.symptom);
+            if seen.insert(g) {
+                first.push(x);
+            } else {
+                rest.push(x);
+            }
+        }
+        first.extend(rest);
+        unlisted = first;
+    }
+    if unlisted.len() > 1 {
+        let mut groups: BTreeMap<String, u64> = BTreeMap::new();
+        for (v, c) in &unlisted {
+            *groups.entry(format!("{} / {} / {} / {}", v.system.split(':').next().unwrap_or(""), v.config, v.op_class, v.symptom)).or_default() += c;
+        }
+        println!("violation groups (system / config / op class / symptom : occurrences):");
+        for (g, c) in groups.iter().take(200) {
+            println!("  {} : {}", g, c);
+        }
+    }
     let mut n = 0;
     for (v, c) in &unlisted {
         n += 1;
